@@ -49,6 +49,8 @@ type c03 struct {
 	// (truncComplete of them) followed by a proper, non-empty prefix of one more
 	truncated     bool
 	truncComplete int
+	// set for the next loopbackReceiveFrag: the packets expected before the read limit error
+	limitExpect *[]packet.Generic
 }
 
 // emitOracle walks the stream the naive way and records, for every candidate
@@ -591,6 +593,20 @@ func (x *c03) replay(path string) {
 			var sent []packet.Generic
 			if textAt < 0 {
 				sent = parseAll(stream, lim)
+				if all := parseAll(stream, 0); sent == nil && lim > 0 && all != nil {
+					// a clean run of packets one of which exceeds the limit: the ones before it, then the limit error
+					var before []packet.Generic
+					for _, p := range all {
+						if int64(p.Len()) > lim {
+							break
+						}
+						before = append(before, p)
+					}
+					if before == nil {
+						before = []packet.Generic{}
+					}
+					x.limitExpect = &before
+				}
 			}
 			x.loopbackReceiveFrag("ws", stream, sizes, lim, textAt, kv(f, "end") == "close", sent, hx.Atoi(kv(f, "frag")))
 		case "enc":
